@@ -1,14 +1,11 @@
 (* Proofs/EvalLogLoad.v — the load discipline of eval_env, for EVERY fault plan.
-   A load that succeeds (the call is not the faulted one and the loader returns a parsed definition) gets an
-   [imps] entry, entries are never removed, and a name with an entry is never loaded again: successful loads are
-   pairwise distinct ([load_at_most_once]) and NO load of a name follows a successful load of it ([retry_ok]).
-   A load that FAILS (loader error, unparsable definition, faulted call) registers nothing — eval.evaluateImport
-   returns before the name reaches e.imports — so the next listing of the same name loads it again: the property's
-   "each imported environment is loaded at most once" is false of the model and of the code
-   ([load_at_most_once_refuted], known finding C05-failed-load-retried) and holds exactly outside the decidable
-   class [retried_failed] ([loads_once_outside_class]).
-   Whether the k-th call was the faulted one is read off the log position, which is sound because
-   [calls = length log] is part of the invariant. *)
+   EVERY load gets an [imps] entry: a load that succeeds registers its value, a load that FAILS (loader error,
+   unparsable definition, faulted call) registers the failure (eval.evaluateImport: `imported{failed: true}` - the
+   repair of the former known finding C05-failed-load-retried); entries are never removed, and a name with an entry
+   is never loaded again.  Hence the names of ALL loads of an evaluation are pairwise distinct
+   ([load_at_most_once_all] = the property's "each imported environment is loaded at most once").  The statements
+   that were the provable part before the repair (successful loads, the retry discipline, the class
+   [retried_failed]) are kept as corollaries; the class is empty on the model's logs ([retried_failed_never]). *)
 From Coq Require Import Lia ZifyN ZifyNat ZifyBool.
 From Verif Require Import Base.Bytes Model.Chain Model.GoText Model.Envelope Model.Eval.
 From Verif Require Import Proofs.EvalLogKit Proofs.EvalLogInd Proofs.EvalLog.
@@ -68,19 +65,21 @@ Proof. cbn. rewrite String.eqb_refl. discriminate. Qed.
 
 Section Load.
 Variable W : world.
-Notation sl := (succ_loads W).
+Notation al := all_loads.
 
+Lemma all_loads_not_load e l : is_load e = false -> all_loads (e :: l) = all_loads l.
+Proof. destruct e; cbn; intros H; try reflexivity; discriminate. Qed.
+
+(* EVERY load (successful or not) leaves an [imps] entry: the names of all loads are pairwise distinct *)
 Definition load_inv (s : st) : Prop :=
-  calls s = N.of_nat (length (log s)) /\ NoDup (sl (log s)) /\ (forall n, In n (sl (log s)) -> hasI s n)
-  /\ retry_ok W (log s).
+  NoDup (al (log s)) /\ (forall n, In n (al (log s)) -> hasI s n).
 
 (* the invariant while environment [name] has been loaded but is not yet registered in [imps] *)
 Definition load_inv_x (name : string) (s : st) : Prop :=
-  calls s = N.of_nat (length (log s)) /\ NoDup (sl (log s)) /\ (forall n, In n (sl (log s)) -> n = name \/ hasI s n)
-  /\ retry_ok W (log s).
+  NoDup (al (log s)) /\ (forall n, In n (al (log s)) -> n = name \/ hasI s n).
 
 Definition lframe (g s : st) : Prop :=
-  (forall n, hasI g n -> hasI s n) /\ (forall n, hasI g n -> In n (sl (log s)) -> In n (sl (log g))).
+  (forall n, hasI g n -> hasI s n) /\ (forall n, hasI g n -> In n (al (log s)) -> In n (al (log g))).
 
 Definition RL (g s : st) : Prop := lframe g s /\ (load_inv g -> load_inv s).
 
@@ -94,25 +93,27 @@ Lemma RL_trans g s s' : RL g s -> RL s s' -> RL g s'.
 Proof. intros [F1 C1] [F2 C2]. split; [eapply lframe_trans; eassumption|auto]. Qed.
 
 Lemma load_inv_weaken name s : load_inv s -> load_inv_x name s.
-Proof. intros (C & ND & H & RT). split; [exact C|]. split; [exact ND|]. split; [|exact RT]. intros n Hn. right. exact (H n Hn). Qed.
+Proof. intros (ND & H). split; [exact ND|]. intros n Hn. right. exact (H n Hn). Qed.
 
-(* operations that change neither imps, log nor calls *)
+(* operations that change neither imps nor log *)
 Lemma RL_same g s s' : imps s' = imps s -> log s' = log s -> calls s' = calls s -> RL g s -> RL g s'.
 Proof.
-  intros Hi Hl Hc [[A B] C]. unfold RL, lframe, load_inv, hasI in *. rewrite Hi, Hl, Hc. auto.
+  intros Hi Hl _ [[A B] C]. unfold RL, lframe, load_inv, hasI in *. rewrite Hi, Hl. auto.
 Qed.
 
 Lemma lframe_same g s s' : imps s' = imps s -> log s' = log s -> lframe g s -> lframe g s'.
 Proof. intros Hi Hl [A B]. unfold lframe, hasI in *. rewrite Hi, Hl. auto. Qed.
 
+Lemma load_inv_x_same n s s' : imps s' = imps s -> log s' = log s -> load_inv_x n s -> load_inv_x n s'.
+Proof. intros Hi Hl [A B]. unfold load_inv_x, hasI in *. rewrite Hi, Hl. auto. Qed.
+
 Lemma RL_event g e s : is_load e = false -> RL g s -> RL g (snd (emit e (snd (call W s)))).
 Proof.
   intros He [[A B] C]. split; [split|].
   - exact A.
-  - intros n Hn. cbn [emit call snd log]. rewrite succ_loads_not_load by exact He. exact (B n Hn).
-  - intros Hg. destruct (C Hg) as (Hc & ND & H & RT). unfold load_inv, hasI. cbn [emit call snd log calls imps].
-    rewrite succ_loads_not_load by exact He. rewrite retry_ok_not_load by exact He.
-    split; [cbn [length]; lia|]. split; [exact ND|]. split; [exact H|exact RT].
+  - intros n Hn. cbn [emit call snd log]. rewrite all_loads_not_load by exact He. exact (B n Hn).
+  - intros Hg. destruct (C Hg) as (ND & H). unfold load_inv, hasI. cbn [emit call snd log calls imps].
+    rewrite all_loads_not_load by exact He. split; [exact ND|exact H].
 Qed.
 
 Lemma ev_ok_not_load IdOK E e : ev_ok W IdOK E e -> is_load e = false.
@@ -123,7 +124,7 @@ Proof.
   intros [[A B] C]. split; [split|].
   - intros n' Hn'. unfold hasI. cbn. apply hasI_cons. exact (A n' Hn').
   - exact B.
-  - intros Hg. destruct (C Hg) as (Hc & ND & H & RT). split; [exact Hc|]. split; [exact ND|]. split; [|exact RT].
+  - intros Hg. destruct (C Hg) as (ND & H). split; [exact ND|].
     intros n' Hn'. unfold hasI. cbn. apply hasI_cons. exact (H n' Hn').
 Qed.
 
@@ -153,45 +154,24 @@ Lemma lframe_load g n s :
 Proof.
   intros [A B] Hnone. split.
   - exact A.
-  - intros n' Hn' Hin. cbn [emit call snd log succ_loads] in Hin.
-    destruct (ok_load W n && negb (fault_at W (N.of_nat (length (log s))))); [|exact (B n' Hn' Hin)].
+  - intros n' Hn' Hin. cbn [emit call snd log all_loads] in Hin.
     destruct Hin as [<-|Hin]; [|exact (B n' Hn' Hin)]. exfalso. exact (A n Hn' Hnone).
 Qed.
 
-Lemma call_failed s : calls s = N.of_nat (length (log s)) -> fst (call W s) = fault_at W (N.of_nat (length (log s))).
-Proof. intros H. unfold call, fault_at. cbn. rewrite H. reflexivity. Qed.
-
-(* the load did not succeed: the invariant simply continues *)
-Lemma load_inv_failed n s :
-  load_inv s -> alookup n (imps s) = None -> ok_load W n && negb (fst (call W s)) = false ->
-  load_inv (snd (emit (EvLoad n) (snd (call W s)))).
-Proof.
-  intros (Hc & ND & H & RT) Hnone Hf. rewrite (call_failed s Hc) in Hf.
-  unfold load_inv, hasI. cbn [emit call snd log calls imps succ_loads retry_ok]. rewrite Hf.
-  split; [cbn [length]; lia|]. split; [exact ND|]. split; [exact H|].
-  split; [|exact RT]. intros Hin. exact (H n Hin Hnone).
-Qed.
-
-(* the load succeeded: [n] is pending until it is registered *)
-Lemma load_inv_succeeded n s :
+(* the load happened (whatever its outcome): [n] is pending until it is registered *)
+Lemma load_inv_loaded n s :
   load_inv s -> alookup n (imps s) = None ->
   load_inv_x n (snd (emit (EvLoad n) (snd (call W s)))).
 Proof.
-  intros (Hc & ND & H & RT) Hnone.
-  assert (RT' : ~ In n (sl (log s)) /\ retry_ok W (log s)).
-  { split; [|exact RT]. intros Hin. exact (H n Hin Hnone). }
-  unfold load_inv_x, hasI. cbn [emit call snd log calls imps succ_loads retry_ok].
-  split; [cbn [length]; lia|].
-  destruct (ok_load W n && negb (fault_at W (N.of_nat (length (log s))))).
-  - split; [|split; [|exact RT']].
-    + constructor; [|exact ND]. intros Hin. exact (H n Hin Hnone).
-    + intros n' [<-|Hin]; [now left|right; exact (H n' Hin)].
-  - split; [exact ND|]. split; [|exact RT']. intros n' Hin. right. exact (H n' Hin).
+  intros (ND & H) Hnone.
+  unfold load_inv_x, hasI. cbn [emit call snd log calls imps all_loads]. split.
+  - constructor; [|exact ND]. intros Hin. exact (H n Hin Hnone).
+  - intros n' [<-|Hin]; [now left|right; exact (H n' Hin)].
 Qed.
 
 Lemma load_inv_register n v s : load_inv_x n s -> load_inv (snd (imps_set n v s)).
 Proof.
-  intros (Hc & ND & H & RT). split; [exact Hc|]. split; [exact ND|]. split; [|exact RT].
+  intros (ND & H). split; [exact ND|].
   intros n' Hin. unfold hasI. cbn. destruct (H n' Hin) as [->|Hh]; [apply hasI_self|apply hasI_cons, Hh].
 Qed.
 
@@ -205,54 +185,36 @@ Lemma import_loop_RL f root' :
   spec_env f -> forall is base my g, preserves (RL g) (import_loop W f root' is base my).
 Proof.
   intros IH. induction is as [|[n merge] rest IHl]; intros base my g; [apply pres_ret|].
-  change (preserves (RL g)
-    (s <- imps_get n ;;
-     match s with
-     | Some i =>
-         if is_evaluating i then err ;;; import_loop W f root' rest base my
-         else import_loop W f root' rest
-                (if merge then (match is_value i with Some v => v | None => [] end) ++ base else base)
-                (ainsert n (match is_value i with Some v => v | None => [] end) my)
-     | None =>
-         failed <- call W ;;
-         emit (EvLoad n) ;;;
-         match (if failed then LoadFail
-                else match alookup n (w_envs W) with Some l => l | None => LoadFail end) with
-         | LoadFail => err ;;; import_loop W f root' rest base my
-         | LoadNoParse => err ;;; import_loop W f root' rest base my
-         | LoadOk d' =>
-             v <- eval_env W f root' n d' ;;
-             imps_set n {| is_evaluating := false; is_value := Some v |} ;;;
-             import_loop W f root' rest (if merge then v ++ base else base) (ainsert n v my)
-         end
-     end)).
+  rewrite import_loop_cons.
   assert (forall g', preserves (RL g') (err ;;; import_loop W f root' rest base my)) as Lerr.
   { intros g'. apply pres_bind; [|intros _; apply IHl].
     intros s Hs. eapply RL_same; [| | |exact Hs]; reflexivity. }
   intros s Hs. rewrite bind_run.
   change (snd (imps_get n s)) with s. change (fst (imps_get n s)) with (alookup n (imps s)).
   destruct (alookup n (imps s)) as [i|] eqn:Hnone.
-  - destruct (is_evaluating i); [apply Lerr, Hs|apply IHl, Hs].
+  - destruct (is_evaluating i); [apply Lerr, Hs|]. destruct (is_value i); apply IHl, Hs.
   - rewrite bind_run, bind_run.
     set (s1 := snd (emit (EvLoad n) (snd (call W s)))).
-    change (snd (call W s)) with (snd (call W s)) in *.
     destruct Hs as [Hf Hinv].
     assert (lframe g s1) as Hf1 by (apply lframe_load; assumption).
-    assert (ok_load W n && negb (fst (call W s)) = false -> RL g s1) as Hfail.
-    { intros Hno. split; [exact Hf1|]. intros Hg. apply load_inv_failed; auto. }
-    unfold ok_load in Hfail.
-    destruct (fst (call W s)) eqn:Hfailed.
-    { apply Lerr. apply Hfail. apply andb_false_r. }
-    destruct (alookup n (w_envs W)) as [[| |d']|] eqn:Hlk;
-      try (apply Lerr; apply Hfail; reflexivity).
-    rewrite bind_run, bind_run.
+    (* the load failed: the failure is registered *)
+    assert (RL g (snd ((err ;;; imps_set n {| is_evaluating := false; is_value := None |} ;;;
+                        import_loop W f root' rest base my) s1))) as Lfail.
+    { rewrite bind_run, bind_run. apply IHl. split.
+      - apply lframe_trans with (s := s1); [exact Hf1|]. split; [|auto].
+        intros n' Hn'. unfold hasI. cbn. apply hasI_cons. exact Hn'.
+      - intros Hg. apply load_inv_register.
+        apply (load_inv_x_same n s1); [reflexivity|reflexivity|]. apply load_inv_loaded; auto. }
+    destruct (fst (call W s)) eqn:Hfailed; [exact Lfail|].
+    destruct (alookup n (w_envs W)) as [[| |d']|] eqn:Hlk; try exact Lfail.
+    clear Lfail. rewrite bind_run, bind_run.
     destruct (IH root' n d' s1) as [Hf2 Hx2].
     set (s2 := snd (eval_env W f root' n d' s1)) in *.
     apply IHl. split.
     + apply lframe_trans with (s := s2).
       * eapply lframe_trans; [exact Hf1|exact Hf2].
       * split; [|auto]. intros n' Hn'. unfold hasI. cbn. apply hasI_cons. exact Hn'.
-    + intros Hg. apply load_inv_register. apply Hx2. apply load_inv_succeeded; auto.
+    + intros Hg. apply load_inv_register. apply Hx2. apply load_inv_loaded; auto.
 Qed.
 
 Theorem eval_env_load : forall fuel, spec_env fuel.
@@ -283,14 +245,46 @@ Qed.
 End Load.
 
 (* ------------------------------------------------------------------------------------------- *)
-(** * load_at_most_once *)
+(** * load_at_most_once: the names of ALL LoadEnvironment calls of an evaluation are pairwise distinct *)
+
+Theorem load_at_most_once_all W fuel root name d :
+  NoDup (all_loads (log (snd (eval_env W fuel root name d st0)))).
+Proof.
+  destruct (eval_env_load W fuel root name d st0) as [_ H].
+  apply H. split; [constructor|intros n []].
+Qed.
+
+(* a name that already has an [imps] entry is not loaded by the evaluation *)
+Theorem registered_not_loaded W fuel root name d s n :
+  alookup n (imps s) <> None ->
+  In n (all_loads (log (snd (eval_env W fuel root name d s)))) -> In n (all_loads (log s)).
+Proof. intros Hh. exact (proj2 (proj1 (eval_env_load W fuel root name d s)) n Hh). Qed.
+
+(* ---- corollaries: the statements that were the provable part while failed loads were retried ---- *)
+Lemma succ_loads_sub W l n : In n (succ_loads W l) -> In n (all_loads l).
+Proof.
+  induction l as [|e l IH]; [intros []|]. destruct e; cbn; try exact IH.
+  destruct (ok_load W name && negb (fault_at W (N.of_nat (length l)))); cbn; [intros [<-|H]; auto|auto].
+Qed.
+
+Lemma NoDup_succ_loads W l : NoDup (all_loads l) -> NoDup (succ_loads W l).
+Proof.
+  induction l as [|e l IH]; [intros _; constructor|]. destruct e; cbn; try exact IH.
+  intros ND. inversion ND as [|x r Hn ND']. subst.
+  destruct (ok_load W name && negb (fault_at W (N.of_nat (length l)))); [|exact (IH ND')].
+  constructor; [|exact (IH ND')]. intros Hin. apply Hn. exact (succ_loads_sub W l name Hin).
+Qed.
+
+Lemma NoDup_retry_ok W l : NoDup (all_loads l) -> retry_ok W l.
+Proof.
+  induction l as [|e l IH]; [intros _; exact I|]. destruct e; cbn; try exact IH.
+  intros ND. inversion ND as [|x r Hn ND']. subst. split; [|exact (IH ND')].
+  intros Hin. apply Hn. exact (succ_loads_sub W l name Hin).
+Qed.
 
 Theorem load_at_most_once W fuel root name d :
   NoDup (succ_loads W (log (snd (eval_env W fuel root name d st0)))).
-Proof.
-  destruct (eval_env_load W fuel root name d st0) as [_ H].
-  apply H. split; [reflexivity|]. split; [constructor|]. split; [intros n []|exact I].
-Qed.
+Proof. apply NoDup_succ_loads, load_at_most_once_all. Qed.
 
 (* without a fault plan, the successful loads are exactly the loads of names the loader knows *)
 Fixpoint ok_loads (W : world) (l : list ev) : list string :=
@@ -310,12 +304,6 @@ Theorem load_at_most_once_no_fault W fuel root name d :
   w_fault W = None -> NoDup (ok_loads W (log (snd (eval_env W fuel root name d st0)))).
 Proof. intros Hf. rewrite <- succ_loads_no_fault by exact Hf. apply load_at_most_once. Qed.
 
-(* a name that already has an [imps] entry is not loaded (successfully) by the evaluation *)
-Theorem registered_not_loaded W fuel root name d s n :
-  alookup n (imps s) <> None ->
-  In n (succ_loads W (log (snd (eval_env W fuel root name d s)))) -> In n (succ_loads W (log s)).
-Proof. intros Hh. exact (proj2 (proj1 (eval_env_load W fuel root name d s)) n Hh). Qed.
-
 (* about the observable log of [run] (oldest event first) *)
 Lemma ok_loads_app W a b : ok_loads W (a ++ b) = ok_loads W a ++ ok_loads W b.
 Proof.
@@ -334,15 +322,9 @@ Theorem run_load_at_most_once_no_fault fuel W name d :
   w_fault W = None -> NoDup (ok_loads W (ob_log (run fuel W name d))).
 Proof. intros Hf. rewrite run_log, ok_loads_rev. apply NoDup_rev, load_at_most_once_no_fault, Hf. Qed.
 
-(* ------------------------------------------------------------------------------------------- *)
-(** * ALL loads: the retry discipline, the refutation of "every environment is loaded at most once", and the
-      exact class outside which it holds *)
-
+(* the retry discipline (now a consequence: nothing is ever loaded twice) *)
 Theorem load_retry_ok W fuel root name d : retry_ok W (log (snd (eval_env W fuel root name d st0))).
-Proof.
-  destruct (eval_env_load W fuel root name d st0) as [_ H].
-  apply H. split; [reflexivity|]. split; [constructor|]. split; [intros n []|exact I].
-Qed.
+Proof. apply NoDup_retry_ok, load_at_most_once_all. Qed.
 
 Lemma all_loads_split W l n : In n (all_loads l) -> In n (succ_loads W l) \/ In n (failed_loads W l).
 Proof.
@@ -374,7 +356,8 @@ Proof.
   - apply Hw. apply IH; [exact RT|exact Hc].
 Qed.
 
-(* the decidable class of the known finding C05-failed-load-retried: some FAILED load's name is loaded more than once *)
+(* the decidable class of the former known finding C05-failed-load-retried (fixed: a failed import is remembered):
+   some FAILED load's name is loaded more than once.  It is EMPTY on the model's logs ([retried_failed_never]). *)
 Definition retried_failed (W : world) (l : list ev) : bool :=
   existsb (fun n => Nat.ltb 1 (count_name n (all_loads l))) (failed_loads W l).
 
@@ -395,29 +378,37 @@ Proof.
   apply Nat.ltb_lt in Hn. pose proof (proj1 (NoDup_count_occ string_dec _) ND n). unfold count_name in Hn. lia.
 Qed.
 
+(* the class never occurs on a log of the evaluator *)
+Theorem retried_failed_never W fuel root name d :
+  retried_failed W (log (snd (eval_env W fuel root name d st0))) = false.
+Proof.
+  destruct (retried_failed W _) eqn:E; [|reflexivity].
+  exfalso. exact (class_not_once W _ E (load_at_most_once_all W fuel root name d)).
+Qed.
+
 Theorem load_at_most_once_partial W fuel root name d :
   retried_failed W (log (snd (eval_env W fuel root name d st0))) = false ->
   NoDup (all_loads (log (snd (eval_env W fuel root name d st0)))).
-Proof. apply loads_once_outside_class, load_retry_ok. Qed.
+Proof. intros _. apply load_at_most_once_all. Qed.
 
-(* a load that is followed by another load of the same name was a failed one (newest-first log: [a] is later) *)
+(* no load is followed by another load of the same name (newest-first log: [a] is later) *)
+Theorem never_reloaded W fuel root name d a n b :
+  log (snd (eval_env W fuel root name d st0)) = a ++ EvLoad n :: b -> ~ In n (all_loads a).
+Proof.
+  intros Hl Hin. pose proof (load_at_most_once_all W fuel root name d) as ND. rewrite Hl in ND. clear Hl.
+  induction a as [|e a IH]; [destruct Hin|].
+  destruct e; cbn in ND, Hin; try exact (IH Hin ND).
+  inversion ND as [|x r Hn ND']. subst. destruct Hin as [->|Hin]; [|exact (IH Hin ND')].
+  apply Hn. clear. induction a as [|e a IH]; cbn; [now left|]. destruct e; cbn; auto.
+Qed.
+
 Theorem reload_only_after_failure W fuel root name d a n b :
   log (snd (eval_env W fuel root name d st0)) = a ++ EvLoad n :: b ->
   In n (all_loads a) ->
   (ok_load W n && negb (fault_at W (N.of_nat (length b)))) = false.
-Proof.
-  intros Hl Hin. pose proof (load_retry_ok W fuel root name d) as RT. rewrite Hl in RT. clear Hl.
-  induction a as [|e a IH]; [destruct Hin|].
-  destruct e; cbn in RT, Hin; try exact (IH Hin RT).
-  destruct RT as [Hno RT]. destruct Hin as [->|Hin]; [|exact (IH Hin RT)].
-  destruct (ok_load W n && negb (fault_at W (N.of_nat (length b)))) eqn:E; [|reflexivity].
-  exfalso. apply Hno. clear -E. induction a as [|e a IH]; cbn.
-  - rewrite E. now left.
-  - destruct e; cbn; try exact IH.
-    destruct (ok_load W name && negb (fault_at W (N.of_nat (length (a ++ EvLoad n :: b))))); [right|]; exact IH.
-Qed.
+Proof. intros Hl Hin. exfalso. exact (never_reloaded W fuel root name d a n b Hl Hin). Qed.
 
-(* ---- the witness: an import that cannot be parsed, listed three times; no fault plan ---- *)
+(* ---- the former witnesses: an import that cannot be parsed, listed three times; no fault plan ---- *)
 Definition W_badimport : world :=
   {| w_envs := [("bad", LoadNoParse)]; w_provs := []; w_ctx := []; w_check := false; w_show := false;
      w_fault := None; w_decrypt := fun _ _ => None |}.
@@ -431,23 +422,15 @@ Definition W_twopaths : world :=
      w_provs := []; w_ctx := []; w_check := false; w_show := false; w_fault := None; w_decrypt := fun _ _ => None |}.
 Definition d_twopaths : envdef := {| ed_imports := [("a", true); ("b", true)]; ed_values := [("z", ENull)] |}.
 
-Example retried_load_logs :
-  ob_log (run 30 W_badimport "root" d_triple_bad) = [EvLoad "bad"; EvLoad "bad"; EvLoad "bad"]
-  /\ ob_log (run 30 W_twopaths "root" d_twopaths) = [EvLoad "a"; EvLoad "bad"; EvLoad "b"; EvLoad "bad"]
-  /\ retried_failed W_badimport (log (snd (eval_env W_badimport 30 "" "root" d_triple_bad st0))) = true
-  /\ retried_failed W_twopaths (log (snd (eval_env W_twopaths 30 "" "root" d_twopaths st0))) = true.
+(* a failing import is loaded ONCE and reported once, however often and through however many paths it is listed *)
+Example failed_load_remembered_logs :
+  ob_log (run 30 W_badimport "root" d_triple_bad) = [EvLoad "bad"]
+  /\ nerr (snd (eval_env W_badimport 30 "" "root" d_triple_bad st0)) = 1%N
+  /\ ob_log (run 30 W_twopaths "root" d_twopaths) = [EvLoad "a"; EvLoad "bad"; EvLoad "b"]
+  /\ nerr (snd (eval_env W_twopaths 30 "" "root" d_twopaths st0)) = 1%N
+  /\ retried_failed W_badimport (log (snd (eval_env W_badimport 30 "" "root" d_triple_bad st0))) = false
+  /\ retried_failed W_twopaths (log (snd (eval_env W_twopaths 30 "" "root" d_twopaths st0))) = false.
 Proof. vm_compute. repeat split. Qed.
-
-(* the property's load clause, as written ("each imported environment is loaded at most once per evaluation"),
-   is false of the model — and of eval.evaluateImport, see known finding C05-failed-load-retried *)
-Theorem load_at_most_once_refuted :
-  ~ (forall W fuel root name d, NoDup (all_loads (log (snd (eval_env W fuel root name d st0))))).
-Proof.
-  intros H. specialize (H W_badimport 30%nat "" "root" d_triple_bad).
-  assert (E : all_loads (log (snd (eval_env W_badimport 30 "" "root" d_triple_bad st0))) = ["bad"; "bad"; "bad"])
-    by (vm_compute; reflexivity).
-  rewrite E in H. inversion H as [|x l Hn _]. apply Hn. now left.
-Qed.
 
 (* chronological log of [run] *)
 Lemma all_loads_app a b : all_loads (a ++ b) = all_loads a ++ all_loads b.
@@ -459,7 +442,10 @@ Proof.
   destruct e; cbn; rewrite ?app_nil_r; reflexivity.
 Qed.
 
+Theorem run_load_at_most_once fuel W name d : NoDup (all_loads (ob_log (run fuel W name d))).
+Proof. rewrite run_log, all_loads_rev. apply NoDup_rev, load_at_most_once_all. Qed.
+
 Theorem run_load_at_most_once_partial fuel W name d :
   retried_failed W (log (snd (eval_env W fuel "" name d st0))) = false ->
   NoDup (all_loads (ob_log (run fuel W name d))).
-Proof. intros H. rewrite run_log, all_loads_rev. apply NoDup_rev, load_at_most_once_partial, H. Qed.
+Proof. intros _. apply run_load_at_most_once. Qed.
